@@ -1,6 +1,7 @@
 import ParryModel.Proto
 import ParryModel.C01.Model
 import ParryModel.C01.Oracle
+import ParryModel.C01.DriverGjk
 /-! C01 protocol handlers: model evaluation at `Float` (closed forms, SAT) and exact-`Rat` certificate oracles on the
 implementation's output (closed forms **and** the end-to-end `query::distance` / `query::closest_points`). -/
 namespace C01
@@ -409,6 +410,6 @@ def handler (fn : String) : Option Handler :=
   | "dist2" => some { model := fun _ => some "oracle-only", oracle := oracleDistWorld false }
   | "gjkh3" => some { model := fun _ => some "oracle-only", oracle := oracleHistory true }
   | "gjkh2" => some { model := fun _ => some "oracle-only", oracle := oracleHistory false }
-  | _ => none
+  | _ => C01.Gjk.handler fn
 
 end C01
